@@ -127,7 +127,8 @@ theorem cas_chain {s : Skiplist} {i : Nat} {key : Bytes} {p nx : SkRef}
     (hs : KSorted (s.level i)) (hp : PosAt s i key p) (hn : RefHi key nx)
     (hcas : s.getNext p i = nx) :
     KSorted (insertAfter p key (s.level i)) ∧
-    ∀ k, k ∈ insertAfter p key (s.level i) ↔ k = key ∨ k ∈ s.level i := by
+    (∀ k, k ∈ insertAfter p key (s.level i) ↔ k = key ∨ k ∈ s.level i) ∧
+    key ∉ s.level i := by
   obtain ⟨pre, rest, hc, rfl, hafter, hpre⟩ := hp.split hs
   unfold getNext at hcas
   rw [hafter] at hcas
@@ -144,8 +145,13 @@ theorem cas_chain {s : Skiplist} {i : Nat} {key : Bytes} {p nx : SkRef}
       rcases List.mem_cons.mp hx with h | h
       · subst h; exact hb
       · exact ck_trans hb (hs'.right.head_lt x h)
+  have hnot : key ∉ s.level i := by
+    rw [hc]; intro hm
+    rcases List.mem_append.mp hm with h | h
+    · have := hpre key h; rw [ck_refl] at this; cases this
+    · have := hrest key h; rw [ck_refl] at this; cases this
   rw [hc, insertAfter_lastOf hs']
-  refine ⟨?_, ?_⟩
+  refine ⟨?_, ?_, hc ▸ hnot⟩
   · unfold KSorted
     rw [List.pairwise_append]
     refine ⟨hs'.left, List.pairwise_cons.mpr ⟨hrest, hs'.right⟩, ?_⟩
@@ -269,7 +275,7 @@ theorem stepPut_inv (s : Skiplist) (l : PutLocal)
       split
       · rename_i hcas
         have hcas' : s.getNext p i = nx := by simpa using hcas
-        obtain ⟨hks, hmem'⟩ := cas_chain (hsorted i) hp hn hcas'
+        obtain ⟨hks, hmem', _⟩ := cas_chain (hsorted i) hp hn hcas'
         -- levels of the new shared state
         have hlev : ∀ j, (if i = 0 then (s.insertAt i p l.key).setValue l.key l.v
               else s.insertAt i p l.key).level j =
